@@ -296,7 +296,7 @@ def tcp_wrap(ctx):
     transfers whose data stream crosses the wrap points within its first bytes, with reordering (held-back segments park in the
     receiver's out-of-order heap across the wrap), loss and duplication, judged against the C01 + C04 clauses."""
     import tcplib
-    ctx.kf_props = ('C01', 'C04')
+    ctx.kf_props = ('C01', 'C02', 'C04')
     drv = ctx.go_build('tcpd')
     rng = ctx.rng
     scs = []
@@ -324,7 +324,19 @@ def tcp_wrap(ctx):
                                 tag='wrap-park%d-iss%04x%04x-hold%d' % (k, hi, lo, arg),
                                 a=dict(writes=[1480], shutdown=True, iss=[hi, lo]), b=dict(writes=[], shutdown=True),
                                 a2b=dict(rules=[dict(kind='data', nth=1, act='hold', arg=arg)]), b2a=dict()))
-    segs, stats, rep = tcplib.run_pair(ctx, drv, scs, ['C01', 'C04'], 'c14tcp', what='TCP with wrap-adjacent initial sequence numbers', classify=tcplib.classify_all)
+    # deterministic: the RECEIVER's window edges straddle the wrap: a small receive buffer, the peer's ISS a few thousand below
+    # 2^32 / 2^31, so that the advertised right edge is still below the wrap point when the next edge (after the application
+    # read) lies beyond it; the window must keep re-opening and the transfer must complete (C02 clauses)
+    for hi in (0xffff, 0x7fff):
+        for below in (1500, 3000, 6000, 12000):
+            for rb in ((1000, 2500) if ctx.thorough() else (2000,)):
+                k += 1
+                lo = 0x10000 - below
+                scs.append(dict(v=4, mtu=576, sack=(k % 2 == 0), cc='', sync=False, deadline_ms=45000, seed=k, flags={},
+                                tag='wrap-rcvwin%d-iss%04x%04x-rb%d' % (k, hi, lo, rb),
+                                a=dict(writes=[20000], shutdown=True, iss=[hi, lo]), b=dict(writes=[], shutdown=True, rcvbuf=rb, read_delay_us=300),
+                                a2b=dict(), b2a=dict()))
+    segs, stats, rep = tcplib.run_pair(ctx, drv, scs, ['C01', 'C02', 'C04'], 'c14tcp', what='TCP with wrap-adjacent initial sequence numbers', classify=tcplib.classify_all)
     ctx.extra['tcp_wrap'] = stats
     ctx.extra['tcp_wrap_iss_placements'] = ['%04x%04x' % tuple(p) for p in placements]
     ctx.sample(dict(kind='tcp-wrap-scenario', scenario=scs[0]))
